@@ -6,8 +6,9 @@
    gw  = the data member of the response the real ExecutionEngine wrote,
    ref = the data computed by the Coq-extracted reference executor (mono mode) for the same
          operation, variables, supergraph and universe.
-   Verdicts: data_equal is json_eqb (extracted from coq/lib/Json.v) on the two trees; a difference
-   that disappears when object members are sorted is reported under its own clause field_order;
+   Verdicts: data_equal is json_eqb (extracted from coq/lib/Json.v) on the two trees after sorting
+   object members by key (a JSON value has no member order); a pure order difference is only
+   counted (flag orderonly, evidence distribution.member_order_differs);
    the remaining clauses are evaluated by the Go harness (which has the federation metadata) and
    passed through.  The Go harness' own tree comparison is tied to json_eqb (corr:C01/json_eqb). *)
 let bs = bytes_of_string
@@ -50,13 +51,15 @@ let handle (x : sexp) : (string * string) list =
     else begin
       let gw = match find "gw" items with [L [A "absent"]] -> JNull | [j] -> json_of j | _ -> raise (Sexp_error "gw") in
       let rf = match find "ref" items with [j] -> json_of j | _ -> raise (Sexp_error "ref") in
-      let eq = json_eqb gw rf in
+      (* "the same JSON value": member order is not part of a JSON value, so both trees are
+         brought to sorted member order before the extracted json_eqb compares them; a pure
+         order difference is informational (detail "... order") *)
+      let eq = json_eqb (jsort gw) (jsort rf) in
       if eq <> flag flags "goequal" then
         add "mismatch" (Printf.sprintf "corr:C01/json_eqb go=%b coq=%b" (flag flags "goequal") eq);
-      if not eq then begin
-        if json_eqb (jsort gw) (jsort rf) then add "specfail" ("field_order" ^ tail)
-        else add "specfail" ("data_equal" ^ tail)
-      end;
+      if eq && (json_eqb gw rf) = flag flags "orderonly" then
+        add "mismatch" (Printf.sprintf "corr:C01/json_eqb-ordered go_orderonly=%b" (flag flags "orderonly"));
+      if not eq then add "specfail" ("data_equal" ^ tail);
       if flag flags "gwerrors" <> flag flags "referrors" then
         add "specfail" (Printf.sprintf "errors_iff gateway=%b reference=%b%s" (flag flags "gwerrors") (flag flags "referrors") tail);
       if not (flag flags "reqvalid") then add "specfail" ("request_valid" ^ tail);
